@@ -99,32 +99,33 @@ func backendsFromEnv() []string {
 	return []string{beHashmap, beBbolt, beFstree, beRuntime}
 }
 
-func genOp(t *rapid.T, kind string) opSpec {
-	op := opSpec{Kind: kind}
-	op.Key = rapid.IntRange(0, nUserKeys-1).Draw(t, "key")
-	switch {
-	case strings.HasPrefix(kind, "w."):
-		// flagged records are the point: three of four writes carry a flag
-		op.Flags = rapid.SampledFrom([]int{0, 1, 2, 3, 1, 2}).Draw(t, "flags")
-		op.Via = rapid.IntRange(0, 2).Draw(t, "via")
+func genOp() *rapid.Generator[opSpec] {
+	return rapid.Custom(func(t *rapid.T) opSpec {
+		kind := rapid.SampledFrom(opTable).Draw(t, "kind")
+		op := opSpec{Kind: kind}
+		// few keys, so that readers meet the records the writer flagged
+		op.Key = rapid.SampledFrom([]int{0, 0, 0, 1, 1, 2, 3, 3, 4}).Draw(t, "key")
+		switch {
+		case strings.HasPrefix(kind, "w."):
+			// flagged records are the point: most writes carry a flag
+			op.Flags = rapid.SampledFrom([]int{0, 1, 2, 3, 1, 2}).Draw(t, "flags")
+			op.Via = rapid.IntRange(0, 2).Draw(t, "via")
+		case strings.HasPrefix(kind, "r."):
+			// index bits: 1 local, 2 internal, 4 cached; the fully privileged readers (3, 7) are rarer
+			op.Reader = rapid.SampledFrom([]int{0, 0, 1, 1, 2, 2, 3, 4, 4, 5, 5, 6, 6, 7}).Draw(t, "reader")
+		default:
+			op.API = rapid.IntRange(0, 1).Draw(t, "api")
+		}
 		op.N = rapid.IntRange(0, 9).Draw(t, "n")
 		op.T = rapid.IntRange(0, 2).Draw(t, "t")
-	case strings.HasPrefix(kind, "r."):
-		op.Reader = rapid.IntRange(0, 7).Draw(t, "reader")
-		op.N = rapid.IntRange(0, 9).Draw(t, "n")
-		op.T = rapid.IntRange(0, 2).Draw(t, "t")
-	default:
-		op.API = rapid.IntRange(0, 1).Draw(t, "api")
-		op.N = rapid.IntRange(0, 9).Draw(t, "n")
-		op.T = rapid.IntRange(0, 2).Draw(t, "t")
-	}
-	switch kind {
-	case "r.query", "r.sub", "r.purge", "api.query", "api.qsub", "api.sub":
-		op.Prefix = rapid.IntRange(0, 1).Draw(t, "prefix")
-		op.Cond = rapid.SampledFrom([]int{0, 0, 1, 2}).Draw(t, "cond")
-		op.CondArg = rapid.IntRange(0, 8).Draw(t, "condarg")
-	}
-	return op
+		switch kind {
+		case "r.query", "r.sub", "r.purge", "api.query", "api.qsub", "api.sub":
+			op.Prefix = rapid.IntRange(0, 1).Draw(t, "prefix")
+			op.Cond = rapid.SampledFrom([]int{0, 0, 1, 2}).Draw(t, "cond")
+			op.CondArg = rapid.IntRange(0, 8).Draw(t, "condarg")
+		}
+		return op
+	})
 }
 
 func genSpec(t *rapid.T, backends []string) caseSpec {
@@ -132,14 +133,9 @@ func genSpec(t *rapid.T, backends []string) caseSpec {
 		Backend: rapid.SampledFrom(backends).Draw(t, "backend"),
 		Shadow:  rapid.Bool().Draw(t, "shadow"),
 	}
-	n := rapid.IntRange(4, 28).Draw(t, "nops")
-	for i := 0; i < n; i++ {
-		kind := rapid.SampledFrom(opTable).Draw(t, "kind")
-		if i == 0 {
-			kind = "w.put"
-		}
-		spec.Ops = append(spec.Ops, genOp(t, kind))
-	}
+	// every case starts with a flagged record
+	first := opSpec{Kind: "w.put", Flags: rapid.IntRange(1, 3).Draw(t, "firstflags"), Via: rapid.IntRange(0, 2).Draw(t, "firstvia"), N: 5, T: 1}
+	spec.Ops = append([]opSpec{first}, rapid.SliceOfN(genOp(), 3, 30).Draw(t, "ops")...)
 	return spec
 }
 
@@ -311,4 +307,26 @@ func TestExhaustiveTable(t *testing.T) {
 	stats.Exhaustive("path x flags x privileges x backend x shadow-delete x cache x flagging time x flagging mechanism (one record, one access)")
 	stats.Sample("table", map[string]any{"scenarios": total, "with_denied_access_to_flagged_record": nontrivial,
 		"example": fmt.Sprintf("%v", caseSpec{Backend: beBbolt, Ops: []opSpec{{Kind: "w.put", Key: key, Flags: 1}, {Kind: "r.get", Key: key, Reader: 1}}})})
+}
+
+// ---------------------------------------------------------------- regressions (fixed findings)
+
+// TestRegStaleCacheWrite: an interface with a cache that had read a public
+// record could still modify / overwrite / delete it after another interface
+// had made it secret or crown jewel (permission taken from the outdated cached
+// copy). Minimal history found by TestPropStateMachine.
+func TestRegStaleCacheWrite(t *testing.T) {
+	for _, backend := range []string{beHashmap, beBbolt, beFstree} {
+		for _, kind := range []string{"r.insert", "r.put", "r.putnew", "r.delete", "r.setabs", "r.setrel", "r.secret", "r.crown"} {
+			for _, flags := range []int{1, 2} {
+				reader := 4 // cached, neither local nor internal
+				runSpec(t, caseSpec{Backend: backend, Ops: []opSpec{
+					{Kind: "w.put", Key: 0},
+					{Kind: "r.get", Key: 0, Reader: reader},
+					{Kind: "w.put", Key: 0, Flags: flags},
+					{Kind: kind, Key: 0, Reader: reader},
+				}}, false)
+			}
+		}
+	}
 }
